@@ -327,56 +327,21 @@ impl PartialEq for OctetString {
         if let (Some(l), Some(r)) = (self.as_slice(), other.as_slice()) {
             return l == r
         }
-        let mut sit = self.iter();
-        let mut oit = other.iter();
-        let (mut ssl, mut osl) = match (sit.next(), oit.next()) {
-            (Some(ssl), Some(osl)) => (ssl, osl),
-            (None, None) => return true,
-            _ => return false,
-        };
-        loop {
-            if ssl.is_empty() {
-                ssl = sit.next().unwrap_or(b"");
-            }
-            if osl.is_empty() {
-                osl = oit.next().unwrap_or(b"");
-            }
-            match (ssl.is_empty(), osl.is_empty()) {
-                (true, true) => return true,
-                (false, false) => { },
-                _ => return false,
-            }
-            let len = cmp::min(ssl.len(), osl.len());
-            if ssl[..len] != osl[..len] {
-                return false
-            }
-            ssl = &ssl[len..];
-            osl = &osl[len..];
-        }
+        // Segment boundaries and empty segments don’t matter: compare the
+        // sequence of content octets.
+        self.octets().eq(other.octets())
     }
 }
 
 impl<T: AsRef<[u8]>> PartialEq<T> for OctetString {
     fn eq(&self, other: &T) -> bool {
-        let mut other = other.as_ref();
+        let other = other.as_ref();
 
         if let Some(slice) = self.as_slice() {
             return slice == other
         }
 
-        for part in self.iter() {
-            if part.len() > other.len() {
-                return false
-            }
-            if part.len() == other.len() {
-                return part == other
-            }
-            if part != &other[..part.len()] {
-                return false
-            }
-            other = &other[part.len()..]
-        }
-        false
+        self.octets().eq(other.iter().copied())
     }
 }
 
@@ -393,23 +358,13 @@ impl PartialOrd for OctetString {
 
 impl<T: AsRef<[u8]>> PartialOrd<T> for OctetString {
     fn partial_cmp(&self, other: &T) -> Option<cmp::Ordering> {
-        let mut other = other.as_ref();
+        let other = other.as_ref();
 
         if let Some(slice ) = self.as_slice() {
             return slice.partial_cmp(other)
         }
 
-        for part in self.iter() {
-            if part.len() >= other.len() {
-                return Some(part.cmp(other))
-            }
-            match part.cmp(&other[..part.len()]) {
-                cmp::Ordering::Equal => { }
-                other => return Some(other)
-            }
-            other = &other[part.len()..]
-        }
-        Some(cmp::Ordering::Less)
+        Some(self.octets().cmp(other.iter().copied()))
     }
 }
 
@@ -419,32 +374,9 @@ impl Ord for OctetString {
             return l.cmp(r)
         }
 
-        let mut siter = self.iter();
-        let mut oiter = other.iter();
-        let mut spart = b"".as_ref();
-        let mut opart = b"".as_ref();
-
-        loop {
-            if spart.is_empty() {
-                spart = siter.next().unwrap_or(b"");
-            }
-            if opart.is_empty() {
-                opart = oiter.next().unwrap_or(b"");
-            }
-            match (spart.is_empty(), opart.is_empty()) {
-                (true, true) => return cmp::Ordering::Equal,
-                (true, false) => return cmp::Ordering::Less,
-                (false, true) => return cmp::Ordering::Greater,
-                (false, false) => { },
-            }
-            let len = cmp::min(spart.len(), opart.len());
-            match spart[..len].cmp(&opart[..len]) {
-                cmp::Ordering::Equal => { }
-                other => return other
-            }
-            spart = &spart[len..];
-            opart = &opart[len..];
-        }
+        // Segment boundaries and empty segments don’t matter: compare the
+        // sequence of content octets.
+        self.octets().cmp(other.octets())
     }
 }
 
@@ -453,8 +385,11 @@ impl Ord for OctetString {
 
 impl hash::Hash for OctetString {
     fn hash<H: hash::Hasher>(&self, state: &mut H) {
-        for part in self.iter() {
-            part.hash(state)
+        // Equal strings must hash equally however they are segmented, so
+        // feed the length and then the content octet by octet.
+        self.len().hash(state);
+        for octet in self.octets() {
+            state.write_u8(octet)
         }
     }
 }
